@@ -2,6 +2,7 @@ import Chewing.Proofs.TrieBufSorted
 import Chewing.Proofs.TrieBufSettle
 import Chewing.Proofs.SqliteDict
 import Chewing.Proofs.TrieLink
+import Chewing.Proofs.TrieLinkOrder
 /-!
 # C09 — Mutable dictionaries behave as a map under any update history
 
@@ -614,7 +615,8 @@ theorem builder_insert_is_C11 (es : List Entry) (k : Key) : Trie.leafOf es k = (
     for every query of non-zero syllables the real reader's `lookup_all_phrases` (exact and prefix
     strategy), `lookup_first_n_phrases` and `lookup_first_phrase` return **the same list** as C09's
     `Trie.lookupAll` / `Trie.lookupFirstN` on `Trie.build es`; `entries()` enumerates the entries of
-    `Trie.build es` (a permutation: the real iterator goes depth first), key by key in the same order. -/
+    `Trie.build es` (a permutation: the real iterator goes depth first — which permutation: `file_entries_order`),
+    key by key in the same order. -/
 theorem file_layer_is_C11 (info : TrieCodec.Info) (es : List Entry) (hv : C11.ValidInput info es) :
     ((TrieCodec.Builder.ofEntries info es).Fits → ((TrieCodec.Builder.ofEntries info es).write).isSome = true) ∧
     ∀ bytes, (TrieCodec.Builder.ofEntries info es).write = some bytes → TrieLink.Denotes bytes (Trie.build es) :=
@@ -636,6 +638,20 @@ theorem snapshot_file_is_C11 (info : TrieCodec.Info) (s : State) (hv : C11.Valid
     ∃ bytes, (TrieCodec.Builder.ofEntries info (entries s)).write = some bytes ∧
       TrieLink.Denotes bytes (Trie.build (entries s)) :=
   TrieLink.build_denotes_fits info (entries s) hv hf
+
+/-- **the order of `Trie::entries()` across keys** (the clause "a permutation" of `file_layer_is_C11`, determined):
+    C09's abstract enumeration `Trie.entries (Trie.build es)` lists the leaves in file order — the keys of
+    `buildKeys es`, sorted lexicographically by syllable code with a prefix first —; the real iterator over the
+    bytes lists the SAME leaves with every maximal chain "each key a prefix of the next" of that sorted key list
+    reversed (depth first along first children, `results.pop()` = deepest first).  From C11's `entries_order`. -/
+theorem file_entries_order (info : TrieCodec.Info) (es : List Entry) (hv : C11.ValidInput info es) (bytes : Der.Bytes)
+    (hw : (TrieCodec.Builder.ofEntries info es).write = some bytes) :
+    ∃ tr, TrieCodec.openTrie bytes = some tr ∧
+      TrieCodec.entries tr = .ok (((Cli.runs (TrieLink.buildKeys es)).flatMap List.reverse).flatMap fun k =>
+        (TrieCodec.sortLeaf ((TrieCodec.refFind es k).getD [])).map fun p => (k, p)) ∧
+      Trie.entries (Trie.build es) = (TrieLink.buildKeys es).flatMap fun k =>
+        (TrieCodec.sortLeaf ((TrieCodec.refFind es k).getD [])).map fun p => (k, p) :=
+  TrieLink.build_entries_exact info es hv bytes hw
 
 /-! ## 8. Non-vacuity: the hypotheses are satisfiable and the classes are inhabited -/
 
